@@ -1,11 +1,12 @@
 #!/bin/bash
-# Mirror /verif into /tmp/lab/verif (own harness target dir) bound to a scratch worktree /tmp/lab/repo of /repo's HEAD,
+# Mirror /verif into $LAB/verif (own harness target dir) bound to a scratch worktree $LAB/repo of /repo's HEAD,
 # so that seeded changes can be tried without touching /repo.
 set -e
-mkdir -p /tmp/lab
-if [ ! -d /tmp/lab/repo ]; then git -C /repo worktree add -q --detach /tmp/lab/repo HEAD; fi
-git -C /tmp/lab/repo checkout -q -- . ; git -C /tmp/lab/repo clean -fdq; git -C /tmp/lab/repo checkout -q --detach $(git -C /repo rev-parse HEAD)
-rsync -a --delete --exclude harness/target --exclude work --exclude replays --exclude .git --exclude evidence /verif/ /tmp/lab/verif/
-mkdir -p /tmp/lab/verif/evidence
-sed -i 's#"/repo/#"/tmp/lab/repo/#g' /tmp/lab/verif/harness/cgtv/Cargo.toml
+LAB=${LAB:-/tmp/lab}
+mkdir -p $LAB
+if [ ! -d $LAB/repo ]; then git -C /repo worktree add -q --detach $LAB/repo HEAD; fi
+git -C $LAB/repo checkout -q -- . ; git -C $LAB/repo clean -fdq; git -C $LAB/repo checkout -q --detach $(git -C /repo rev-parse HEAD)
+rsync -a --delete --exclude harness/target --exclude work --exclude replays --exclude .git --exclude evidence /verif/ $LAB/verif/
+mkdir -p $LAB/verif/evidence
+sed -i "s#\"/repo/#\"$LAB/repo/#g" $LAB/verif/harness/cgtv/Cargo.toml
 echo synced
